@@ -52,4 +52,39 @@ SPECS = {
         "real": REAL_ON,
         "stub": STUB_MDP,
     },
+    "C05": {
+        "scenarios": [{"name": "offpolicy", "runs": {"quick": 240, "thorough": 1000000}, "chunks": {"quick": 2, "thorough": 2}}],
+        "budget_s": {"quick": 600, "thorough": 1200},
+        "rule": "one evaluation = one seeded simulated run: real DQN/SAC reset (warm-up) + 1..6 real iterations on a drawn SimMDP with a "
+        "drawn behaviour policy; after reset and after every iteration the whole per-node replay content is read and every newly inserted "
+        "row is checked by RefCollectorOff as a chain (observation acted on, executed = clipped action, reward, pre-reset successor "
+        "observation, done, timeout, policy states, fresh start after done, exact counts); non-trivial = an episode end, ring wrap, partial "
+        "fill or out-of-bounds action fired; distinct = distinct (shape class, fired event/fault kinds with bucketed counts)",
+        "assumptions": ["SimMDP tables / unique observation ids trusted", "rows overwritten before the first read are skipped and counted (probe rows_overwritten_unseen)"],
+        "real": ["lerax off_policy.reset/collect_learning_starts/iteration/step, ReplayBuffer.add, DQN/SAC training step (runs, not judged here)", "TimeLimit, JAX/XLA CPU"],
+        "stub": STUB_MDP[:3] + ["SAC critics replaced by table critics after reset (documented SACState fields)"],
+    },
+    "C07": {
+        "scenarios": [{"name": "offpolicy", "runs": {"quick": 300, "thorough": 1000000}, "chunks": {"quick": 3, "thorough": 3}}],
+        "budget_s": {"quick": 600, "thorough": 1200},
+        "rule": "one evaluation = one seeded simulated run of the real DQN/SAC learner with tabular Q / critics, SGD substituted through the public "
+        "optimizer fields and batch = whole buffer; after every real iteration the online tables (DQN) / critic tables and logged q_loss (SAC) are "
+        "compared with RefTD applied to the buffer rows (flags scheduled by the simulator: termination, time-out, both, none); non-trivial = the "
+        "training batch contained a terminated or a timed-out row; distinct = distinct (shape class, fired event kinds)",
+        "assumptions": ["system-level reading: targets are observed through their effect on the learner, on batches the simulated system produces",
+                        "optax.sgd trusted; arg-max ties (gap < 1e-3) are skipped and counted"],
+        "real": ["lerax DQN.iteration/dqn_train/dqn_loss/per_iteration, SAC.iteration/sac_train/q_loss/actor and alpha updates/_soft_update_targets, ReplayBuffer.sample"],
+        "stub": STUB_MDP[:3] + ["SAC critics = TableCritic (q[s] + w*sum(a)), SAC policy with deterministic update law (known next action and log-prob)"],
+    },
+    "C10": {
+        "scenarios": [{"name": "offpolicy", "runs": {"quick": 240, "thorough": 1000000}, "chunks": {"quick": 2, "thorough": 2}}],
+        "budget_s": {"quick": 600, "thorough": 1200},
+        "rule": "one evaluation = one seeded iteration history (reset + 1..6 real iterations, driven from Python exactly as learn scans them); "
+        "RefSchedule checks the iteration counter, DQN hard copies on multiples of the interval and frozen targets in between (exact), SAC "
+        "Polyak once per iteration, actor/alpha gating on one residue class of policy_frequency; non-trivial = a target tick or actor tick "
+        "fired; distinct = distinct (shape class, fired event kinds)",
+        "assumptions": ["the phase of SAC's policy_frequency gating is not fixed by the statement: any single residue is accepted"],
+        "real": ["lerax AbstractAlgorithmState.next, DQN.per_iteration, SAC.sac_train gating, _soft_update_targets"],
+        "stub": STUB_MDP[:3],
+    },
 }
